@@ -127,8 +127,9 @@ def check_reassembly(ctx, R, DR, MARKER, size_ok, size_desc, min_packet=8):
         info[key] = [ost(st) for st in info[key]]
     # entry: accumulate
     entry_v = info["entry"].env.get(buf_key)
-    acc = entry_v is not None and strip(entry_v)[0] == "bin" and strip(entry_v)[1] == "+" and strip(strip(entry_v)[2]) == B0 \
-        and strip(strip(entry_v)[3]) == ("param", data_p)
+    ev_ = strip(entry_v) if entry_v is not None else ("top",)
+    acc = (ev_[0] == "bin" and ev_[1] == "+" and strip(ev_[2]) == B0 and strip(ev_[3]) == ("param", data_p)) or \
+        (ev_[0] == "mut" and ev_[1] == "extend" and strip(ev_[2]) == B0 and len(ev_[3]) == 1 and strip(ev_[3][0]) == ("param", data_p))    # buffer.extend(data) is buffer += data
     ctx.ob(R + ".c", DR, acc, "incoming data is appended to the buffer (buffer' = buffer + data)", func=DR, file=file, construct=f"self.{attr} += data",
            detail={"entry_value": show(entry_v) if entry_v else None},
            fail="incoming data is not appended to the retained buffer (bytes of a split packet are lost or reordered)")
